@@ -3,6 +3,7 @@ import Sftp.Generated.AllocHandles
 import Sftp.Generated.ClientConnCfg
 import Sftp.Generated.ListingCfg
 import Sftp.Generated.TransferFacts
+import Sftp.Generated.DispatchCfg
 /-
   `cur.cfg <model>` prints, in the token syntax of the corresponding driver, the configuration the
   translator REGENERATED from the source on this run, so that the harness replays schedules in the
@@ -14,6 +15,7 @@ import Sftp.Generated.TransferFacts
     cur.cfg c18    →  five bits:pageSize:maxTx   (c18.run; reuse bit = 1)
     cur.cfg c16    →  six bits          (c16.list …: incByN eofOnlyWhenEmpty filterDots stopOnStatus eofIsNil baseName)
     cur.cfg c16os  →  five bits + " " + batch    (c16.oslist)
+    cur.cfg dispReadAt|dispWriteAt|dispReadFrom|dispWriteTo → nine bits (disp.runcfg)
     cur.cfg xfer   →  wtm,rfm           (the two source facts of the xfer.* cfg tuple)
 -/
 namespace Sftp.Driver.Cur
@@ -49,7 +51,15 @@ def c16os : String :=
   b G.osCfg.errToStatus ++ b G.cliCfg.filterDots ++ b G.cliCfg.stopOnStatus ++ b G.cliCfg.eofIsNil ++
   b G.cliCfg.baseName ++ " " ++ toString G.osCfg.batch
 
+def disp (c : Sftp.Dispatch.DispatchCfg) : String :=
+  b c.chain ++ b c.bounded ++ b c.sendFirst ++ b c.inOrder ++ b c.cancelArm ++ b c.cancelArmReturns ++
+  b c.noOtherExit ++ b c.cancelByReducerOnly ++ b c.awaitWorkers
+
 def cfgOp : List String → String
+  | ["dispReadAt"] => disp G.dispReadAt
+  | ["dispWriteAt"] => disp G.dispWriteAt
+  | ["dispReadFrom"] => disp G.dispReadFrom
+  | ["dispWriteTo"] => disp G.dispWriteTo
   | ["pipe"] => pipe
   | ["c11rs"] => handles G.handlesCfgRS
   | ["c11os"] => handles G.handlesCfgOS
